@@ -1,7 +1,7 @@
 (* C04 — Two-stage lazy indexing of dask arrays equals composed outer indexing, lazily.  Only statements here. *)
 From Coq Require Import ZArith List Bool Permutation.
-From KV Require Import Base.Sx Model.DaskIdx Model.DaskJoint Proofs.DaskIdxP Proofs.DaskSliceP Proofs.DaskReadsP
-  Proofs.DaskTwoStageP Proofs.DaskJointP.
+From KV Require Import Base.Sx Gen.Generated Model.DaskIdx Model.DaskJoint Model.DaskLazy Model.DaskGen Proofs.DaskIdxP
+  Proofs.DaskGenP Proofs.DaskSliceP Proofs.DaskReadsP Proofs.DaskTwoStageP Proofs.DaskJointP Proofs.DaskLazyP.
 Import ListNotations.
 Open Scope Z_scope.
 
@@ -211,3 +211,166 @@ Theorem C04_joint_reads_refuted : exists l, (forall i, In i l -> j_pos i) /\
   j_twice l = [(1, 0, [0; 0]); (1, 0, [1; 0])] /\ map j_culled l = [true; false].
 Proof. exact j_twice_witness. Qed.
 Print Assumptions C04_joint_reads_refuted.
+
+(* ---- DaskLazyIndexer.dataset over HISTORIES of accesses with faults (Model/DaskLazy.v) ----
+   z_code is the statement skeleton of the property as translated from katdal/lazy_indexer.py at this run (lock scope,
+   test of the cell, resolution of a parent indexer, stage 1, transform loop, publication, clearing of the source,
+   return).  For ANY array type, index type and dask_getitem, any world of indexers (nested, sharing parents; parents
+   are constructed before their children), any history of requests (.dataset / .shape / .dtype / indexer[k] = one
+   object, get([...], k) = several) and any plan of which transform calls raise during which request: the translated
+   code behaves - outcome by outcome and transform call by transform call - as the atomic, all-or-nothing, cached
+   computation z_spec_access. *)
+Theorem C04_dataset_atomic : forall (V K : Type) (getitem : V -> K -> option V) (w : z_world V K), z_wf V K w ->
+  forall hist, z_run getitem z_code w (z_init w) hist = z_spec_run getitem w (fun _ => None) hist.
+Proof. exact z_run_refines_init. Qed.
+Print Assumptions C04_dataset_atomic.
+
+(* what "atomic" means.  ALL OR NOTHING: an access that returns has cached exactly the array it returned; an access
+   that raises (a transform or dask_getitem raised, here or in a parent) leaves the object unset, as it was; `None` is
+   never returned. *)
+Theorem C04_dataset_all_or_nothing : forall (V K : Type) (getitem : V -> K -> option V) fuel w plan c i c' o lg,
+  z_wf V K w -> z_spec_access getitem fuel w plan c i = (c', o, lg) ->
+  match o with
+  | ZRet a => c' i = Some a
+  | ZRetNone => False
+  | _ => c' i = c i /\ ((0 < fuel)%nat -> nth_error w i <> None -> c i = None)
+  end.
+Proof. exact z_spec_all_or_nothing. Qed.
+Print Assumptions C04_dataset_all_or_nothing.
+(* ... and touches no object constructed later, and never un-caches or replaces a cached array *)
+Theorem C04_dataset_frame : forall (V K : Type) (getitem : V -> K -> option V) fuel w plan c i c' o lg,
+  z_wf V K w -> z_spec_access getitem fuel w plan c i = (c', o, lg) ->
+  (forall k, (i < k)%nat -> c' k = c k) /\ (forall k a, c k = Some a -> c' k = Some a).
+Proof.
+  intros V K g fuel w plan c i c' o lg W H.
+  exact (conj (z_spec_frame V K g fuel w plan c i c' o lg W H) (z_spec_mono V K g fuel w plan c i c' o lg H)).
+Qed.
+Print Assumptions C04_dataset_frame.
+(* ONCE: when an access to i has returned a, then after any further history of requests (with any faults) every
+   access to i returns that very a, calls no transform and changes nothing *)
+Theorem C04_dataset_once : forall (V K : Type) (getitem : V -> K -> option V) (w : z_world V K) plan c i c' a lg hist plan',
+  z_spec_access getitem (List.length w) w plan c i = (c', ZRet a, lg) -> z_wf V K w ->
+  let c'' := z_spec_after V K getitem w c' hist in
+  z_spec_access getitem (List.length w) w plan' c'' i = (c'', ZRet a, []).
+Proof. exact z_spec_once. Qed.
+Print Assumptions C04_dataset_once.
+(* VALUE: whatever is returned (first access, retry after a fault, cached) is the WHOLE chain
+   transforms(dask_getitem(source, keep)), a pure function of the construction arguments - never a prefix of it *)
+Theorem C04_dataset_value : forall (V K : Type) (getitem : V -> K -> option V) (w : z_world V K), z_wf V K w ->
+  forall fuel plan c i c' o lg, (fuel <= List.length w)%nat -> (i < fuel)%nat -> z_cache_ok V K getitem w c ->
+  z_spec_access getitem fuel w plan c i = (c', o, lg) ->
+  z_cache_ok V K getitem w c' /\ (forall a, o = ZRet a -> z_pure getitem (List.length w) w i = Some a).
+Proof. exact z_spec_value. Qed.
+Print Assumptions C04_dataset_value.
+(* ... which for the objects of a nested indexer is d_dataset, the .dataset that C04_two_stage_partial /
+   C04_nesting_partial equate with transform(array[stage 1]) at any depth *)
+Theorem C04_dataset_value_is_chain : forall i,
+  z_pure d_getitem (List.length (z_of_ind i)) (z_of_ind i) (List.length (z_of_ind i) - 1)%nat = d_dataset i.
+Proof. exact z_pure_of_ind. Qed.
+Print Assumptions C04_dataset_value_is_chain.
+(* ALL: without a fault an access returns the whole chain whenever it is defined, and raises otherwise *)
+Theorem C04_dataset_nofault : forall (V K : Type) (getitem : V -> K -> option V) (w : z_world V K), z_wf V K w ->
+  forall fuel c i c' o lg, (fuel <= List.length w)%nat -> (i < fuel)%nat -> z_cache_ok V K getitem w c ->
+  z_spec_access getitem fuel w (fun _ _ => false) c i = (c', o, lg) ->
+  match z_pure getitem (List.length w) w i with Some a => o = ZRet a | None => o = ZErr end.
+Proof. exact z_spec_nofault. Qed.
+Print Assumptions C04_dataset_nofault.
+(* the build-in-place variant with a lock-free fast path (seeded change C04-6, written in the same instruction set)
+   is NOT atomic: second transform raises in the first access, the retry silently returns the half-built array *)
+Theorem C04_dataset_inplace_refuted :
+  z_run z_ex_get z_code_inplace z_ex_world (z_init z_ex_world) z_ex_hist
+    = [[(ZFault, [(0, 0); (0, 1)]%nat)]; [(ZRet 6, [])]] /\
+  z_spec_run z_ex_get z_ex_world (fun _ => None) z_ex_hist
+    = [[(ZFault, [(0, 0); (0, 1)]%nat)]; [(ZRet 12, [(0, 0); (0, 1)]%nat)]] /\
+  z_run z_ex_get z_code z_ex_world (z_init z_ex_world) z_ex_hist
+    = z_spec_run z_ex_get z_ex_world (fun _ => None) z_ex_hist.
+Proof. exact z_inplace_refuted. Qed.
+Print Assumptions C04_dataset_inplace_refuted.
+(* the rest of the class as the model takes it (translated flags): both fields are touched only by __init__ and
+   dataset, every statement of dataset that touches them is inside `with self._lock:`, __init__ leaves the cell unset
+   and the source = its argument, deep-copies keep and copies the transform list, and shape / dtype / len /
+   __getitem__ / get reach the data only through the `dataset` property *)
+Theorem C04_dataset_skeleton :
+  z_decode c04_ds_code <> None /\ c04_ds_locked = true /\ c04_ds_field_users = [] /\
+  c04_init_cell_unset = true /\ c04_init_orig_is_arg = true /\ c04_init_keep_deepcopied = true /\
+  c04_init_transforms_copied = true /\ c04_init_lock_fresh = true /\ c04_init_defaults_empty = true /\
+  c04_transforms_is_field = true /\
+  c04_shape_via_dataset = true /\ c04_dtype_via_dataset = true /\ c04_getitem_via_dataset = true /\
+  c04_get_via_dataset = true /\ c04_len_via_dataset = true.
+Proof. exact z_skeleton. Qed.
+Print Assumptions C04_dataset_skeleton.
+
+(* ---- the helper functions as translated (Model/DaskGen.v) ----
+   _range_to_slice re-assembled from the tests / default / returned slice found in the source, _dask_oindex with the
+   axis step found in the source and the cull threshold of dask_getitem ARE the hand-written models the theorems
+   above speak about (an edit of one of those expressions changes the generated definition and this stops checking;
+   an edit of the statement skeletons of dask_getitem / _dask_oindex / _simplify_index is refused by the translator). *)
+Theorem C04_helpers_as_translated :
+  (forall l, g_range_to_slice l = d_range_to_slice l) /\
+  (forall ixs a axis, g_oindex_seq a ixs (Z.of_nat axis) = d_oindex_seq a ixs axis) /\
+  (forall a b, c04_cull_test a b = (2 * a <? b)) /\
+  (forall fuel st, g_culled_steps fuel st = j_culled_steps fuel st) /\
+  c04_simplify_loop_as_modelled = true /\ c04_iter_as_modelled = true.
+Proof.
+  exact (conj g_range_to_slice_eq (conj g_oindex_seq_eq (conj g_cull_test_eq (conj g_culled_steps_eq g_skeletons)))).
+Qed.
+Print Assumptions C04_helpers_as_translated.
+
+(* len(indexer) and iteration (for index in range(len(self)): yield self[index]): the first advertised dimension and,
+   in order, exactly the rows transform(array[stage 1])[k] of the spec data set; both raise on a 0-d data set or a
+   rejected first stage.  Any nesting depth; guard = F20 on the first-stage slices only (an integer index cannot hit it) *)
+Theorem C04_iter_partial : forall i, d_ind_ok i ->
+  match d_spec_dataset i with
+  | Some a =>
+      match d_shape a with
+      | n :: _ => d_len i = Some n /\
+                  exists rows, d_iter i = Some rows /\ List.length rows = Z.to_nat n /\
+                    forall k, (k < Z.to_nat n)%nat -> d_oeqv (nth k rows None) (d_oindex a [DInt (Z.of_nat k)])
+      | [] => d_len i = None /\ d_iter i = None
+      end
+  | None => d_len i = None /\ d_iter i = None
+  end.
+Proof. exact d_iter_spec. Qed.
+Print Assumptions C04_iter_partial.
+(* non-vacuity of C04_dataset_atomic on arrays: shared parent, a fault in the parent, then in the child, then none *)
+Theorem C04_dataset_example :
+  z_wf _ _ z_ex2_world /\
+  z_ex2_show (z_run d_getitem z_code z_ex2_world (z_init z_ex2_world) z_ex2_hist) =
+    [[(None, [(0, 0)]%nat)];
+     [(None, [(0, 0); (1, 0)]%nat)];
+     [(Some [-3; -5; -7], [(2, 0)]%nat); (Some [-7; -3], [(1, 0)]%nat)];
+     [(Some [-7; -3], []); (Some [-3; -5; -7], []); (Some [3; 5; 7], [])]] /\
+  z_run d_getitem z_code z_ex2_world (z_init z_ex2_world) z_ex2_hist
+    = z_spec_run d_getitem z_ex2_world (fun _ => None) z_ex2_hist.
+Proof. exact z_example_nested. Qed.
+Print Assumptions C04_dataset_example.
+
+(* LATER MUTATION OF THE CALLER'S INDEX ARRAYS HAS NO EFFECT: objects constructed from index objects the caller still
+   holds; the caller overwrites them (ZMutate) anywhere in the history.  With the constructor as translated
+   (c04_init_keep_deepcopied: self.keep = copy.deepcopy(keep)) the whole history - with faults, retries, nesting -
+   is the atomic spec over the values the index objects had at construction; with a constructor that keeps the
+   caller's object it is not (Coq witness). *)
+Theorem C04_keep_snapshot : forall (V K : Type) (getitem : V -> K -> option V) w, z_wf V K (z_snapshot w) ->
+  forall evs st,
+  z_run_events getitem c04_init_keep_deepcopied z_code w st (z_init (z_snapshot w)) evs
+    = z_spec_run getitem (z_snapshot w) (fun _ => None) (z_requests_of evs).
+Proof. exact z_keep_snapshot. Qed.
+Print Assumptions C04_keep_snapshot.
+Theorem C04_keep_snapshot_needs_copy :
+  let w := [(ZPBase 5, (1, Some 0%nat), @nil (Z -> Z))] in
+  let evs := [ZMutate 0%nat 100; ZRequest [0%nat] (fun _ _ => false)] in
+  z_run_events (fun a k => Some (a + k)) false z_code w (fun _ => 1) (z_init (z_snapshot w)) evs
+    = [[(ZRet 105, [])]] /\
+  z_spec_run (fun a k => Some (a + k)) (z_snapshot w) (fun _ => None) (z_requests_of evs)
+    = [[(ZRet 6, [])]].
+Proof. exact z_keep_alias_refuted. Qed.
+Print Assumptions C04_keep_snapshot_needs_copy.
+(* HISTORY INDEPENDENCE: after ANY two histories (different faults, retries, order of requests, other objects touched),
+   accesses to i that return, return the same array *)
+Theorem C04_dataset_history_independent : forall (V K : Type) (getitem : V -> K -> option V) (w : z_world V K),
+  z_wf V K w -> forall h1 h2 p1 p2 i c1' a1 lg1 c2' a2 lg2,
+  z_spec_access getitem (List.length w) w p1 (z_spec_after V K getitem w (fun _ => None) h1) i = (c1', ZRet a1, lg1) ->
+  z_spec_access getitem (List.length w) w p2 (z_spec_after V K getitem w (fun _ => None) h2) i = (c2', ZRet a2, lg2) ->
+  a1 = a2.
+Proof. exact z_spec_history_independent. Qed.
+Print Assumptions C04_dataset_history_independent.
